@@ -11,7 +11,7 @@
      good_leaves t  every leaf carries a taxon and no taxon sits on two leaves
    Lengths are integers in units of 2^-10 (None = Python None, counted as 0). *)
 From Coq Require Import ZArith QArith List Bool.
-From DV Require Import Model.PyPrims Model.Tree Model.C14Model Model.C14Spec Model.C14Spec2 Model.C14Csv Proofs.C14Proofs Proofs.C14Means Proofs.C14Clu Proofs.C14Upgma Proofs.C14Nj Proofs.C14Ultra Proofs.C14Uniq Proofs.C14UpgmaFull Proofs.C14CsvProofs Proofs.C14Qcrit.
+From DV Require Import Model.PyPrims Model.Tree Model.C14Model Model.C14Spec Model.C14Spec2 Model.C14Csv Proofs.C14Proofs Proofs.C14Means Proofs.C14Clu Proofs.C14Upgma Proofs.C14Nj Proofs.C14Ultra Proofs.C14Uniq Proofs.C14UpgmaFull Proofs.C14CsvProofs Proofs.C14Qcrit Proofs.C14FourPoint.
 Import ListNotations.
 Open Scope Z_scope.
 
@@ -510,10 +510,10 @@ Print Assumptions q_criterion_up_to_five.
    nj_tree returns a tree whose path distance between any two taxa is the matrix entry
    (PDM(NJ(M)) = M; the lengths assigned at each join are the exact pendant lengths by
    nj_step_sound).  For more than five taxa nj_recovers_additive_partial remains an implication from
-   the Q-criterion: the general lemma (Studier-Keppler) is NOT proved.  Also not proved: that the
-   matrix of a binary rose tree with positive internal edge lengths satisfies mfour_point_strict, and
-   that a tree is determined by its (unrooted) metric -- recovery of unrooted splits with their
-   lengths is checked by the correspondence oracle only. *)
+   the Q-criterion: the general lemma (Studier-Keppler) is NOT proved.  Also not proved: that a tree
+   is determined by its (unrooted) metric -- recovery of unrooted splits with their lengths is checked
+   by the correspondence oracle only.  (That the matrix of a binary rose tree with positive internal
+   edge lengths satisfies mfour_point_strict IS proved: tree_matrix_four_point_strict below.) *)
 Theorem nj_recovers_additive_up_to_five_taxa : forall M order,
   NoDup order -> order <> [] -> (length order <= 5)%nat ->
   mcomplete M order -> msymmetric M order -> mfour_point_strict M order ->
@@ -521,3 +521,25 @@ Theorem nj_recovers_additive_up_to_five_taxa : forall M order,
     forall a b, In a order -> In b order -> a <> b -> exists q, qdist T a b = Some q /\ (q == mval M a b)%Q.
 Proof. exact nj_recovers_small_l. Qed.
 Print Assumptions nj_recovers_additive_up_to_five_taxa.
+
+(* ---------------------------------------------------------------------------------------- *)
+(* The distance matrix of a binary rose tree (every node has no or two children) with non-negative
+   lengths and positive lengths above its internal nodes satisfies the strictly resolved four-point
+   condition; hence neighbor joining realises the distances of every such tree with at most five
+   leaves, in every iteration order, unconditionally. *)
+Theorem tree_matrix_four_point_strict : forall t p order,
+  rbin t -> good_leaves t -> t_kids t <> [] -> positive_internal t -> nonneg_lengths t ->
+  compile_from_tree t = Ok p -> (forall a, In a order -> In (Some a) (leaf_taxa t)) ->
+  mfour_point_strict (qtable p true) order.
+Proof. exact Proofs.C14FourPoint.tree_matrix_four_point_strict. Qed.
+Print Assumptions tree_matrix_four_point_strict.
+
+Theorem nj_recovers_tree_up_to_five_leaves : forall t p order,
+  rbin t -> good_leaves t -> t_kids t <> [] -> positive_internal t -> nonneg_lengths t ->
+  compile_from_tree t = Ok p ->
+  NoDup order -> order <> [] -> (length order <= 5)%nat -> (forall a, In a order -> In (Some a) (leaf_taxa t)) ->
+  exists T, nj_tree (qtable p true) order = Ok T /\
+    forall a b, In a order -> In b order -> a <> b ->
+      exists q d, qdist T a b = Some q /\ dist t a b = Some d /\ (q == uq d)%Q.
+Proof. exact nj_recovers_tree_small. Qed.
+Print Assumptions nj_recovers_tree_up_to_five_leaves.
